@@ -1,4 +1,58 @@
 import RP.Driver.Common
--- line-protocol driver for property C10 (stub)
-def handle (_line : String) : String := "unimplemented"
-def main : IO Unit := RP.Driver.run handle
+import RP.Model.TreeShape
+/-! line-protocol driver for C10:
+
+    tree <walker> <n> <node>*   →   accept | reject node=<i> <failed clauses> | reject abstraction
+    node = parent|- ; edge u8 ; seat0 ; seat1 ; pot ; board ; dealer ; ticker ; hist ; abs ; menu ; pay0 ; pay1
+    seat = state(b|s|f),stack,stake,spent,hole
+
+runs `RP.TreeShape.acceptTree` (theorem `RP.C10.C10_accept_sound`) on the dumped real tree. -/
+open RP.Driver RP.TreeShape
+
+namespace RP.Driver.C10
+
+def parseSeat (s : String) : Option RP.Game.Seat :=
+  match s.splitOn "," with
+  | [st, stack, stake, spent, hole] => do
+    let state ← match st with
+      | "b" => some RP.Showdown.Status.betting | "s" => some .shoving | "f" => some .folding | _ => none
+    let hole ← hole.toNat?
+    some { state, stack := intOf stack, stake := intOf stake, spent := intOf spent, hole }
+  | _ => none
+
+def parseNode (s : String) : Option DNode :=
+  match s.splitOn ";" with
+  | [p, e, s0, s1, pot, board, dealer, ticker, hist, abs, menu, pay0, pay1] => do
+    let parent ← if p == "-" then some none else (p.toNat?).map some
+    let ecode ← e.toNat?
+    let edge ← if p == "-" then some RP.Codec.Edge.draw else RP.Codec.edgeOfU8 ecode
+    let s0 ← parseSeat s0
+    let s1 ← parseSeat s1
+    let board ← board.toNat?
+    let dealer ← dealer.toNat?
+    let ticker ← ticker.toNat?
+    let hist ← hist.toNat?
+    let abs ← abs.toNat?
+    let menu ← menu.toNat?
+    some { parent, edge, game := { s0, s1, pot := intOf pot, board, dealer, ticker },
+           hist, abs, menu, pay0 := intOf pay0, pay1 := intOf pay1 }
+  | _ => none
+
+def handle (line : String) : String :=
+  match words line with
+  | "tree" :: w :: n :: rest =>
+    match w.toNat?, n.toNat?, rest.mapM parseNode with
+    | some w, some n, some nodes =>
+      if nodes.length != n then "bad-op" else
+      let t : DTree := { walker := w, nodes := nodes.toArray }
+      if acceptTree t then "accept"
+      else
+        match (List.range t.size).find? (fun i => !acceptNode t i) with
+        | some i => s!"reject node={i} {joinSp (failures t i)}"
+        | none => if absOk t then "reject header" else "reject abstraction"
+    | _, _, _ => "bad-op"
+  | _ => "bad-op"
+
+end RP.Driver.C10
+
+def main : IO Unit := RP.Driver.run RP.Driver.C10.handle
